@@ -798,6 +798,15 @@ class Dataset(AbstractDataset, dict, OpMixin, GetSetDelAttrMixin):
                 res[k1] = self[k1]._binary_op(func, other)
         return res
 
+    def _rbinary_op(self, func, other):
+        """ reflected operation with a scalar on the left (e.g. 1 - ds), for each key
+        """
+        assert isscalar(other), "can only combine Datasets objects (func={})".format(func.__name__)
+        res = self.__class__()
+        for k in self.keys():
+            res[k] = self[k]._rbinary_op(func, other)
+        return res
+
     def _unary_op(self, func):
         res = self.__class__()
         for k in self.keys():
